@@ -11,14 +11,16 @@ P = {
     "id": "C09",
     "coq_targets": ["Properties/C09.vo", "Run/Eval_C09.vo"],
     "theorems_module": "Properties.C09",
-    "theorems": ["C09_trust_is_membership", "C09_trust_is_membership_pinned", "C09_F1_refuted",
-                 "C09_untrusted_noninterference", "C09_untrusted_not_passed_on", "C09_trusted_overrides_exactly",
-                 "C09_nonvacuous_untrusted", "C09_nonvacuous_trusted"],
+    "theorems": ["C09_trust_is_membership", "C09_untrusted_noninterference", "C09_untrusted_not_passed_on",
+                 "C09_trusted_overrides_exactly",
+                 "C09_trust_is_membership_pinned", "C09_untrusted_noninterference_pinned", "C09_F1_pinned_refuted",
+                 "C09_F1_pinned_noninterference_refuted",
+                 "C09_nonvacuous_untrusted", "C09_nonvacuous_former_F1_input", "C09_nonvacuous_trusted"],
     "streams": [{
         "name": "entrypoints", "pkg": "./internal/zzverif/c09", "test": "TestVerifC09",
         "overlay": dict(ASSEMBLY_OVERLAY, **{"internal/zzverif/c09/c09_test.go": "c09/c09_test.go"}),
-        "eval_module": "Run.Eval_C09", "check_term": "check false",
-        "n_quick": 2400, "n_thorough": 60000, "findings": {1: "C09-F1"}, "shard": 300,
+        "eval_module": "Run.Eval_C09", "check_term": "check true",
+        "n_quick": 2400, "n_thorough": 60000, "findings": {}, "shard": 300,
     }],
     "rule": "generated trusted_proxies lists (single IPv4/IPv6/IPv4-mapped addresses, CIDR ranges of both families, unparsable "
             "entries, empty, option absent) x peers (RemoteAddr: IPv4, IPv6, IPv4-mapped, zoned, unix socket, garbage; about half aimed "
@@ -48,17 +50,18 @@ P = {
                   "line, sees none of the seven headers, and the upstream receives one fresh Forwarded header (2-safety non-interference "
                   "over all pairs of header sets differing in the seven headers); for a listed peer each present non-empty header "
                   "overrides exactly its component with fallback to the actual request; the middleware's trust test equals membership. "
-                  "The pinned loader violates membership exactly on the guard of C09-F1 (witness proved). The model is tied to the code by "
+                  "No guard: finding C09-F1 was repaired by fix: commit e501d3a; the behaviour of the pinned loader (an unparsable entry "
+                  "made every unparsable peer trusted) is kept as the witnesses C09_F1_pinned_refuted / "
+                  "C09_F1_pinned_noninterference_refuted. The model is tied to the code by "
                   "running ~2400 (quick) / 60000 (thorough) generated requests per run through the real assembled decision and proxy "
                   "applications and comparing status, matched rule, echoed view and upstream request with the model inside Coq.",
     "level_note": "Trusted: Coq kernel/vm_compute; the correspondence harness; IP/CIDR/URL/HTTP parsing are oracles (observed answers as "
                   "case data); rule matching reduced to the harness's literal rule set; header values restricted to ASCII (strings.TrimSpace "
                   "is modelled for ASCII white space only). Envoy gRPC mode has no trusted-proxy handling and is outside C09 (see C13). "
-                  "C09-F1 is open with guard guard_F1; candidate repair fixes/C09-F1.diff (model parameter fixed_F1, check_term `check true`).",
+                  "C09-F1 is fixed (fix: e501d3a = fixes/C09-F1.diff); the evaluator runs the repaired variant of the model (`check true`), "
+                  "so a regression of the repair is an ordinary VIOLATION (corpus cases 0, 1, 9, 10 are the former witnesses).",
     "assumptions": [
         "header values are ASCII (Go's TrimSpace also trims Unicode white space; not modelled)",
-        "the check_term `check false` expects the pinned trustedproxy loader; after fixes/C09-F1.diff is committed switch to `check true` "
-        "and move C09-F1 to `fixed` (until then the run reports `finding not reproduced`, never a violation)",
         "X-Forwarded-Path is deleted for untrusted peers but never read by heimdall (no component to override)",
     ],
 }
